@@ -181,6 +181,9 @@ def class_member_for_instance(ex, ci, selfv, name, node=None):
         g = ci.lookup('__getattr__')
         if g and g[0] == 'method':
             return ex.call(BoundMethod(ex.func_of(g[1]), selfv), [name], {})
+    if isinstance(selfv, Ref) and ex.run.cell(selfv).ghost.get('input') and not name.startswith('__'):
+        # an input object of the contract: the declared shape does not mention this attribute
+        raise OutOfSubset(f'the code reads attribute {name!r} of input {ex.run.cell(selfv).ghost["input"]!r}, which the contract shape does not declare')
     raise RaiseEx(ExcVal('AttributeError', origin=f'{ci.name}.{name}'))
 
 
